@@ -100,7 +100,9 @@ def play(cfg, seed, episodes, nsteps, defender, path):
         # (several required parameters missing at once, unknown parameters, an unsupported type, text that is not JSON)
         for bad in (msg("ScanNetwork"), msg("BlockIP"), msg("ExfiltrateData", data={"owner": "a", "id": "b", "size": 0, "type": ""}),
                     msg("FindServices", bogus=1, other=2, third=3), '{"action_type": "ActionType.Nope", "parameters": {}}', "not json",
-                    nsgenv.join("again", "Attacker")):
+                    nsgenv.join("again", "Attacker"),
+                    # a trajectory flag that is text but no literal: the refusal must not quote addresses of parser objects
+                    msg("ResetGame", request_trajectory="true"), msg("ResetGame", request_trajectory="yes()"), msg("ResetGame", request_trajectory="[1,")):
             exchange(attackers[ep % len(attackers)], bad)
             drain()
         for step in range(nsteps):
